@@ -775,7 +775,7 @@ POINT_B = dict(D=0.2, E=0.052, lam=0.1, T0=80.0, g=100.0)
 TN = 83.0
 
 
-def e2e_sign_and_window(ctx, params, errTol, res, label, M=20):
+def e2e_sign_and_window(ctx, params, errTol, res, label, M=20, calls=None):
     """property on one result: window, labelling, pressure sign change at vw -+ k errTol on a
     FRESH EOM of a FRESH manager"""
     from WallGo.containers import WallParams
@@ -801,25 +801,91 @@ def e2e_sign_and_window(ctx, params, errTol, res, label, M=20):
         fail(ctx, "e2e: returned vJ=%r is not the current hydrodynamics' vJ=%r" % (
             res.velocityJouguet, hyd.vJ), rep, key="history")
     eom = m2.setupWallSolver(settings()).eom
+    # (i) the function the solver saw: its own last first-guess and pressure tolerance, on the
+    #     fresh EOM.  At the reported velocity this must reproduce the solver's final pressure
+    #     bit for bit (wallPressure is a function of (v, guess, tolerance) only).
+    ps_solver = None
+    if calls:
+        last = calls[-1]
+        rep["solver_calls"] = [dict(v=c["v"], atol=c["atol"], guess=c["guess"][0],
+                                    pressure=c["pressure"], widths_out=c["out"][0])
+                               for c in calls]
+        mk = lambda: WallParams(widths=np.array(last["guess"][0], dtype=float),
+                                offsets=np.array(last["guess"][1], dtype=float))
+        p0 = float(eom.wallPressure(vw, mk(), atol=last["atol"])[0])
+        ctx.count("e2e_pressure_eval")
+        if last["v"] != vw or p0 != last["pressure"]:
+            fail(ctx, "e2e: re-evaluating the final call (v=%r, same guess and tolerance) on a "
+                      "fresh EOM gives P=%r, the solver saw P=%r at v=%r [%s]" % (
+                          vw, p0, last["pressure"], last["v"], label), rep, key="history")
+        ps_solver = {}
+        for k in (-2, 2):
+            ps_solver[k] = float(eom.wallPressure(vw + k * errTol, mk(), atol=last["atol"])[0])
+            ctx.count("e2e_pressure_eval")
+        rep["pressures_solver_guess"] = ps_solver
+    # (ii) the property's own recipe: EOM.wallPressure(vw -+ k errTol, returned wallParams)
     ps = {}
+    wout = {}
     for k in (-2, 2):
         g = WallParams(widths=np.array(res.wallWidths, dtype=float).copy(),
                        offsets=np.array(res.wallOffsets, dtype=float).copy())
-        ps[k] = float(eom.wallPressure(vw + k * errTol, g, atol=1e-10, rtol=1e-6)[0])
+        r = eom.wallPressure(vw + k * errTol, g, atol=1e-10, rtol=1e-6)
+        ps[k] = float(r[0])
+        wout[k] = [float(x) for x in r[1].widths]
         ctx.count("e2e_pressure_eval")
     rep["pressures"] = ps
-    if not (ps[-2] < 0 < ps[2]):
-        fail(ctx, 
-            "e2e: pressure does not change sign within 2*errTol of the reported velocity: "
-            "P(%r - 2*%g) = %.6g, P(vw + 2*%g) = %.6g  [%s]" % (vw, errTol, ps[-2], errTol,
-                                                              ps[2], label),
-            rep, key="no-sign-change")
+    rep["widths_reevaluated"] = wout
+    if ps_solver is not None and not (ps_solver[-2] < 0 < ps_solver[2]):
+        fail(ctx,
+             "e2e: pressure (solver's own first guess and tolerance, fresh EOM) does not change "
+             "sign within 2*errTol of the reported velocity: P(%r - 2*%g) = %.6g, "
+             "P(vw + 2*%g) = %.6g  [%s]" % (vw, errTol, ps_solver[-2], errTol, ps_solver[2],
+                                            label), rep, key="no-sign-change")
+    elif not (ps[-2] < 0 < ps[2]):
+        extra = ""
+        if ps_solver is not None:
+            extra = ("; with the solver's own first guess (widths %s) it does: %.6g / %.6g -- "
+                     "the reported velocity is a zero only of a guess-dependent branch of "
+                     "wallPressure (re-evaluated widths %s vs returned %s)" % (
+                         calls[-1]["guess"][0], ps_solver[-2], ps_solver[2], wout[2],
+                         [float(x) for x in res.wallWidths]))
+        fail(ctx,
+             "e2e: pressure does not change sign within 2*errTol of the reported velocity: "
+             "P(%r - 2*%g) = %.6g, P(vw + 2*%g) = %.6g  [%s]%s" % (
+                 vw, errTol, ps[-2], errTol, ps[2], label, extra),
+             rep, key="no-sign-change" if ps_solver is None else
+             "no-sign-change-from-returned-wallParams")
     # T+, T- returned are those of the hydrodynamic matching at the returned velocity
     c1, c2, Tp, Tm, vmid = hyd.findHydroBoundaries(vw)
     if abs(Tp - res.temperaturePlus) > 1e-9 * Tp or abs(Tm - res.temperatureMinus) > 1e-9 * Tm:
         fail(ctx, "e2e: returned T+/T- (%r, %r) are not those at the returned velocity "
                        "(%r, %r)" % (res.temperaturePlus, res.temperatureMinus, Tp, Tm), rep,
                        key="not-final-eval")
+
+
+def recorded_solve(m, S):
+    """manager.solveWall with every EOM.wallPressure call recorded (the bound method is
+    wrapped from outside for the duration of the call)"""
+    from WallGo.equationOfMotion import EOM
+    orig = EOM.wallPressure
+    calls = []
+
+    def wallPressure(self, wallVelocity, wallParams, atol=None, rtol=None,
+                     boltzmannResultsInput=None):
+        guess = ([float(x) for x in wallParams.widths], [float(x) for x in wallParams.offsets])
+        a = float(self.pressAbsErrTol if atol is None else atol)
+        r = orig(self, wallVelocity, wallParams, atol, rtol, boltzmannResultsInput)
+        calls.append(dict(v=float(wallVelocity), atol=a, guess=guess, pressure=float(r[0]),
+                          out=([float(x) for x in r[1].widths],
+                               [float(x) for x in r[1].offsets])))
+        return r
+
+    EOM.wallPressure = wallPressure
+    try:
+        res = m.solveWall(S)
+    finally:
+        EOM.wallPressure = orig
+    return res, calls
 
 
 def same(a, b):
@@ -833,7 +899,7 @@ def e2e_history(ctx, errTol, thorough_extra=False):
     hist = []
     m, model = new_manager(POINT_A, errTol)
     set_point(m, model, POINT_A, TN)
-    rA1 = m.solveWall(S)
+    rA1, callsA = recorded_solve(m, S)
     hist.append("solveWall@A")
     sA1 = summary(rA1)
     ctx.count("e2e_solve", dict(point="A", errTol=errTol))
@@ -867,7 +933,7 @@ def e2e_history(ctx, errTol, thorough_extra=False):
     # other parameter point, parameters changed in place + re-setup (same Tn)
     set_point(m, model, POINT_B, TN)
     hist.append("params->B in place; setupThermodynamicsHydrodynamics")
-    rB = m.solveWall(S)
+    rB, callsB = recorded_solve(m, S)
     hist.append("solveWall@B")
     sB = summary(rB)
     ctx.count("e2e_solve", dict(point="B after A", errTol=errTol))
@@ -883,8 +949,9 @@ def e2e_history(ctx, errTol, thorough_extra=False):
                 sBf["Tplus"]),
             dict(rep, history=list(hist), with_history=sB, fresh=sBf), key="history")
     ctx.sample(dict(e2e=dict(errTol=errTol, A=sA1, B=sB)))
-    e2e_sign_and_window(ctx, POINT_A, errTol, rA1, "point A, first call")
-    e2e_sign_and_window(ctx, POINT_B, errTol, rB, "point B after history " + " -> ".join(hist))
+    e2e_sign_and_window(ctx, POINT_A, errTol, rA1, "point A, first call", calls=callsA)
+    e2e_sign_and_window(ctx, POINT_B, errTol, rB, "point B after history " + " -> ".join(hist),
+                        calls=callsB)
     if sA1["vw"] is not None and sB["vw"] is not None and sA1["vw"] == sB["vw"]:
         ctx.broken.append("harness: points A and B give the same velocity (history test is blind)")
     return sA1, sB
@@ -893,9 +960,10 @@ def e2e_history(ctx, errTol, thorough_extra=False):
 def e2e_tolerance(ctx, errTol, params=POINT_A, M=20):
     m, model = new_manager(params, errTol, M)
     set_point(m, model, params, TN)
-    r = m.solveWall(settings())
+    r, calls = recorded_solve(m, settings())
     ctx.count("e2e_solve", dict(point=params, errTol=errTol, M=M))
-    e2e_sign_and_window(ctx, params, errTol, r, "single solve errTol=%g M=%d" % (errTol, M), M)
+    e2e_sign_and_window(ctx, params, errTol, r, "single solve errTol=%g M=%d" % (errTol, M), M,
+                        calls=calls)
     return summary(r)
 
 
